@@ -382,9 +382,15 @@ extern "C" void h_c11(int ver, int feat, int edit, int order) {
 		else if (edit == 2) {
 			b->DeleteShape(sh);
 		}
-		else {
+		else if (edit == 3) {
 			b->GetHeader().DeleteBlock(b->GetHeader().GetNumBlocks() - 1);
 			b->PrettySortBlocks();
+		}
+		else {
+			// edits made through the shape object itself (uses the shape's cached geometry-data pointer)
+			std::vector<Triangle> nt = {Triangle(2, 1, 0)};
+			sh->SetTriangles(nt);
+			sh->UpdateBounds();
 		}
 	}
 	sym_assert(sym_unchanged(snap), "C11-independent: editing the copy changed memory reachable from the source");
